@@ -178,12 +178,12 @@ def glb_shape(ctx, rule):
     I = idx[0]
     roles = {I: "idx"}
     from rules.common import expect_defs
-    found = expect_defs(ctx, rule, b, I, roles, {"ok(%s)" % BS: "match", "some(Iterator::next(var:Rev<Range<usize>>))": "walk-back"}, ["match", "walk-back"], "result index")
+    found = expect_defs(ctx, rule, b, I, roles, {"try(%s)" % BS: "match", "try(Iterator::next(var:Rev<Range<usize>>))": "walk-back"}, ["match", "walk-back"], "result index")
     # walk-back range is (0..idx).rev()
     rng = [q.shape(b.expr_of_call(t), roles) for bi, t in q.calls_to(b, "Iterator::rev")]
     ctx.check(rng == ["Iterator::rev(Range{start:0,end:idx})"], rule, fn, "walk:range", "the walk-back visits the indices below the match in descending order", detail=str(rng))
     for site in found.get("walk-back", []):
-        ok = has_fact(b, site[0], roles, ("true", "PartialEq::eq(Fn::call(arg3,tuple(arg1[some(Iterator::next(var:Rev<Range<usize>>))])),arg2)", None))
+        ok = has_fact(b, site[0], roles, ("true", "PartialEq::eq(Fn::call(arg3,tuple(arg1[try(Iterator::next(var:Rev<Range<usize>>))])),arg2)", None))
         ctx.check(ok, rule, fn, "walk:while-equal", "the index is lowered only while the element's key equals the query key", ctx.site(b, *site))
     # break on first inequality: the false edge does not return to the loop
     nxt = [bi for bi, t in q.calls_to(b, "Iterator::next")]
